@@ -560,6 +560,27 @@ class Real:
             state.set_sym_value(v, ir.Shape(list(sym)))
         return enc_ir_shape(state.get_shape_value(v))
 
+    def rule_no_op(self, op, side, xshape, cshape, cval, as_init):
+        """Apply the real `_no_op.rules` to op(x, c) (side 1) / op(c, x) (side 0); c a constant of the given shape."""
+        from onnx import TensorProto, helper, numpy_helper
+
+        from onnxscript.rewriter.rules.common import _no_op
+
+        arr = np.full(cshape, cval, dtype=np.float32)
+        inits, nodes = [], []
+        if as_init:
+            inits.append(numpy_helper.from_array(arr, "c"))
+        else:
+            nodes.append(helper.make_node("Constant", [], ["c"], value=numpy_helper.from_array(arr, "c_v")))
+        nodes.append(helper.make_node(op, ["x", "c"] if side == 1 else ["c", "x"], ["out"]))
+        g = helper.make_graph(nodes, "g", [self._vi("x", TensorProto.FLOAT, xshape)], [self._vi("out", TensorProto.FLOAT, None)], initializer=inits)
+        m = self.ir.from_proto(helper.make_model(g, opset_imports=[helper.make_opsetid("", 18)], ir_version=8))
+        cnt = _no_op.rules.apply_to_model(m)
+        if cnt == 0:
+            return "F"
+        assert any(n.op_type == "Identity" and n.inputs[0].name == "x" for n in m.graph) and not any(n.op_type == op for n in m.graph)
+        return "T"
+
     # ---- rules (through real rule application on a one-node model)
     def _model(self, inputs, node_op, node_inputs, attrs, out_shape, out_dtype=None):
         import onnx
